@@ -26,9 +26,13 @@ BRACKETS_DELIMITERS = {
 }
 # TODO: looks like left-right do have to match
 SIZE_PREFIX = ('left', 'right', 'big', 'Big', 'bigg', 'Bigg')
-PUNCTUATION_COMMANDS = {command + bracket
-                        for command in SIZE_PREFIX
-                        for bracket in BRACKETS_DELIMITERS.union({'|', '.'})}
+# matched in this order: longest first, so that the result does not depend on
+# the iteration order of a set ('left.' is a prefix of 'left.|')
+PUNCTUATION_COMMANDS = tuple(sorted(
+    {command + bracket
+     for command in SIZE_PREFIX
+     for bracket in BRACKETS_DELIMITERS.union({'|', '.'})},
+    key=lambda name: (-len(name), name)))
 
 __all__ = ['tokenize']
 
